@@ -161,6 +161,13 @@ def verify_output(out, out_model, T, sc, n_clusters, label):
 
 
 def check(case):
+    # the export computes spike depths; their denominator (summed positive feature part) may be 0,
+    # which the unchanged code turns into NaN under the default floating-point error state only
+    with core.without(*(('fp', 'warn') if case['spec']['pcf'] else ())):
+        return _check(case)
+
+
+def _check(case):
     spec, label = case['spec'], case['label']
     info = {}
     with env.scratch() as d:
